@@ -14,7 +14,7 @@ def frames(ctx):
         c.tlc_l1(ctx, "UndoFrames.tla", "MC_UndoFrames_dev.cfg", expect_violation="Refines", workers=2)
     # one key, two values, begin / commit / rollback / set only: EVERY operation sequence to depth 7 (thorough 8) - what a frame
     # remembers after nested commits is implementation state that a shortest path to the same abstract state can bypass
-    c.graph_leg(ctx, "UndoFrames.tla", "undo", "Gen_UndoFrames_1key.cfg", {"Keys": ["a"]}, 200, 10, 7 if q else 8)
+    c.graph_leg(ctx, "UndoFrames.tla", "undo", "Gen_UndoFrames_1key.cfg", {"Keys": ["a"]}, 200, 10, 7 if q else 8, histbudget=3000000)
     if q:
         c.graph_leg(ctx, "UndoFrames.tla", "undo", "Gen_UndoFrames.cfg", {}, 1000, 10, 4, "Sim_UndoFrames.cfg", 1500, 11)
     else:
